@@ -39,6 +39,9 @@ type MapV struct {
 	N    int
 }
 
+// ReflVal is the engine's stand-in for a reflect.Value (only Pointer() is supported).
+type ReflVal struct{ V Value }
+
 type bad struct{}
 
 func isSym(v Value) bool {
